@@ -12,7 +12,7 @@ RULE = ("solve_{pubo,qubo,puso,quso}_bruteforce on raw dicts and all ten model t
         "all_solutions both ways; and the solve_bruteforce methods of the ten types (PCBO/PCSO with recorded "
         "constraints). Oracle: independent enumeration with the same predicate; argument snapshot. Non-trivial = "
         ">= 2 variables and the valid set has >= 2 elements; distinct = digest of (function, type, terms, predicate)"
-        ' Also: raw keys / explicit zero coefficients / huge offsets in dict inputs, predicates that read the model, omitted `valid`, typed coefficients, the documented answer (None, {}) / (None, [{}]) when nothing is valid (which the caller may write into), an infinite constant, second call after the caller edited the first answer.')
+        ' Also: raw keys / explicit zero coefficients / huge offsets in dict inputs, predicates that read the model, omitted `valid`, typed coefficients, the answer to an infeasible call belongs to the caller (what it writes into it never reappears), an infinite constant, second call after the caller edited the first answer.')
 TIERS = {"quick": {"shards": 8, "cases": 6000}, "thorough": {"shards": 16, "cases": 30000}}
 FLOOR_BASE = {"quick": 600, "thorough": 8000}    # case counts the floors below were calibrated for; the launcher scales them
 FUNCS = {("bool", False): "solve_pubo_bruteforce", ("bool", True): "solve_qubo_bruteforce",
@@ -245,14 +245,23 @@ def case(ctx, rng, idx):
             if obj is not None:
                 ctx.violation("objective-not-None-when-nothing-valid", "objective %r" % (obj,), w)
                 return
-            # documented answer when nothing is valid: (None, {}) / (None, [{}]); the caller owns it (and may write into it)
-            if sol != ([{}] if alls else {}):
-                ctx.violation("solution-not-empty-when-nothing-valid", "nothing is valid, yet the reported solution is %r" % (sol,), w)
+            # only the objective (None) is promised when nothing is valid; whatever container comes back with it belongs to
+            # the caller, so something the caller wrote into an earlier answer must never show up in a later one
+            MARK = ("__scribble__",)
+            leaked = (isinstance(sol, dict) and MARK in sol) or (isinstance(sol, list) and any(
+                x_ == "__scribble__" or (isinstance(x_, dict) and MARK in x_) for x_ in sol))
+            if leaked:
+                ctx.violation("infeasible-answer-reused-across-calls", "the answer of an earlier infeasible call (edited by its caller) came back: %r" % (sol,), w)
                 return
             ctx.count("nothing-valid-answers-checked")
-            (sol[0] if alls else sol)[("__scribble__",)] = 1
-            if alls:
-                sol.append("__scribble__")
+            try:
+                tgt = sol[0] if (isinstance(sol, list) and sol) else sol
+                if isinstance(tgt, dict):
+                    tgt[MARK] = 1
+                if isinstance(sol, list):
+                    sol.append("__scribble__")
+            except Exception:   # noqa
+                pass
             return
         if obj is None or frac(obj) != exp_obj:
             ctx.violation("wrong-objective" + (":constant" if const else ""), "objective %r, true minimum over valid %r" % (obj, exp_obj), w)
